@@ -1,6 +1,7 @@
 (** C21 — property theorems (statements only; proofs are in Proofs.v) *)
 From Coq Require Import ZArith List.
 From ErgV Require Import Graph.Model Graph.Spec Graph.ProofsReach Graph.Proofs.
+From ErgV Require Graph.ProofsTsort.
 Import ListNotations.
 Open Scope Z_scope.
 
@@ -37,3 +38,68 @@ Theorem fuel_enough : forall g, index_inv g ->
   (forall a b, deep_depends_on g a b <> Fuel) /\ (forall p, ancestors g p <> Fuel) /\
   tsort (nodes g) <> Fuel /\ (forall o, step g o <> Fuel).
 Proof. exact fuel_enough_l. Qed.
+
+(** 5. inc_ref answers CycleDetected, leaving exactly the state [add_node_if_none g referrer], if and only if
+    referrer <> dep and dep already reaches referrer; in every other case it succeeds and the new state
+    abstracts to the reference graph with the edge added (V and E equal as sets).  (referrer = dep is accepted
+    without recording an edge, in the code and in the reference.) *)
+Theorem inc_ref_refuses_cycle : forall g r d, index_inv g ->
+  (forall g', inc_ref g r d = Ok (IncCycle, g') <->
+              (r <> d /\ reach (E (abs g)) d r /\ g' = add_node_if_none g r)) /\
+  (~ (r <> d /\ reach (E (abs g)) d r) ->
+     exists g2, inc_ref g r d = Ok (IncOk, g2) /\ rg_eq (abs g2) (snd (r_inc (abs g) r d))).
+Proof. exact inc_ref_refuses_cycle_l. Qed.
+
+(** 6. acyclicity of the abstract graph is preserved by add / inc_ref / remove / sort, hence holds after every
+    history without rename.  (rename onto a path that dangling edges point to can close a cycle.) *)
+Theorem acyclic_preserved : forall g o x, index_inv g -> acyclic (E (abs g)) ->
+  (match o with ORename _ _ => False | _ => True end) -> step g o = Ok x -> acyclic (E (abs (snd x))).
+Proof. exact acyclic_step. Qed.
+
+Theorem acyclic_inv : forall os g, no_rename os = true -> run_ops empty os = Ok g -> acyclic (E (abs g)).
+Proof. exact acyclic_inv_l. Qed.
+
+(** 7. abs commutes with every operation w.r.t. the reference operations (V and E equal as sets) and the result
+    codes agree (where the reference leaves the sort error open, -1, the code answers one of the two errors);
+    the queries on the concrete state are the reference queries on its abstraction. *)
+Theorem abs_step : forall g o x, index_inv g -> op_ok g o = true -> step g o = Ok x ->
+  rg_eq (abs (snd x)) (snd (r_step (abs g) o)) /\
+  (fst (r_step (abs g) o) = fst x \/ (fst (r_step (abs g) o) = -1 /\ (fst x = 2 \/ fst x = 3))).
+Proof. exact abs_step_l. Qed.
+
+Theorem queries_agree : forall g, index_inv g ->
+  (forall a b, depends_on g a b = Ok (q_depends_on (abs g) a b)) /\
+  (forall a b, deep_depends_on g a b = Ok (q_deep (abs g) a b)) /\
+  (forall p, set_eq (children g p) (q_children (abs g) p)) /\
+  (forall p, exists o, parents g p = Ok o /\ opt_set_eq o (q_parents (abs g) p)).
+Proof. exact queries_agree_l. Qed.
+
+(** sort: the graph is unchanged as a set of nodes and edges, and the answer passes the executable judge *)
+Theorem sort_judged : forall g x, index_inv g -> sort g = Ok x ->
+  rg_eq (abs (snd x)) (abs g) /\
+  judge_sort (abs g) (sort_code (fst x)) (map nid (nodes (snd x))) = true /\
+  (sort_expected (abs g) = sort_code (fst x) \/ (sort_expected (abs g) = -1 /\ fst x <> None)).
+Proof. exact abs_sort. Qed.
+
+(** 8. tsort: a successful answer is a permutation of the nodes in which every node comes after all of its
+    dependencies (so in particular all dependencies are nodes and there is no cycle) *)
+Theorem tsort_sound : forall ns s, NoDup (map nid ns) -> tsort ns = Ok (inr s) ->
+  Permutation.Permutation s ns /\ before_all (map nid s) (edges_of ns) [] = true.
+Proof. exact ProofsTsort.tsort_sound. Qed.
+
+(** error kinds: CyclicReference only if a cycle exists, KeyNotFound only if some dependency is not a node;
+    and tsort succeeds whenever the graph is acyclic and closed.  (With both a cycle and a missing node the
+    answer depends on the iteration order, so no "iff" per kind holds.) *)
+Theorem tsort_err_cyclic : forall ns, tsort ns = Ok (inl CyclicReference) -> exists a, reach (edges_of ns) a a.
+Proof. exact ProofsTsort.tsort_err_cyclic. Qed.
+
+Theorem tsort_err_keynotfound : forall ns, tsort ns = Ok (inl KeyNotFound) ->
+  exists n d, In n ns /\ In d (ndeps n) /\ ~ In d (map nid ns).
+Proof. exact ProofsTsort.tsort_err_keynotfound. Qed.
+
+Theorem tsort_complete : forall ns, acyclic (edges_of ns) ->
+  (forall n d, In n ns -> In d (ndeps n) -> In d (map nid ns)) -> exists s, tsort ns = Ok (inr s).
+Proof. exact ProofsTsort.tsort_complete. Qed.
+
+Theorem tsort_total : forall ns, tsort ns <> Panic /\ tsort ns <> Fuel.
+Proof. exact (fun ns => conj (ProofsTsort.tsort_no_panic ns) (ProofsTsort.tsort_no_fuel ns)). Qed.
